@@ -5,16 +5,17 @@ V = os.path.dirname(os.path.dirname(os.path.abspath(__file__)))
 out = []
 out.append("### 10.1 Changes written by independent sub-agents (`/verif/seeded/<name>/`)\n")
 out.append("Each sub-agent saw only the text of one property and its own scratch worktree of `/repo`; I re-confirmed every change myself in a fresh scratch worktree with `tools/seedcheck.sh` (patch applies to `/repo` HEAD; the 218 tests pass with it; the agent's demonstration fails with it and passes without it) before running the property's quick check against it.\n")
-out.append("| seeded change | property | what it needs to manifest | confirmed | quick check | violation keys reported |")
-out.append("|---|---|---|---|---|---|")
+out.append("| seeded change | property | what it needs to manifest | confirmed | quick check (now) | first version of the check | violation keys reported |")
+out.append("|---|---|---|---|---|---|---|")
 for d in sorted(glob.glob(os.path.join(V, "seeded", "*"))):
     mp = os.path.join(d, "meta.json")
     if not os.path.exists(mp):
         continue
     m = json.load(open(mp))
     need = m.get("needs_to_manifest", "")
-    out.append("| `%s` | %s | %s | %s | %s | %s |" % (os.path.basename(d), m["property"], need, "yes" if m["confirmed_independently"] else "NO",
-               "**detected**" if m["detected_by_quick_check"] else "missed", " ".join("`%s`" % k.replace("key=", "") for k in m["violation_keys"][:3])))
+    first = "missed — " + m.get("strengthening", "") if m.get("missed_by_first_version_of_check") else "detected"
+    out.append("| `%s` | %s | %s | %s | %s | %s | %s |" % (os.path.basename(d), m["property"], need, "yes" if m["confirmed_independently"] else "NO",
+               "**detected**" if m["detected_by_quick_check"] else "missed", first, " ".join("`%s`" % k.replace("key=", "") for k in m["violation_keys"][:3])))
 out.append("")
 out.append("### 10.2 My own property-breaking changes (`/verif/mutants/*.diff`, run by `selftest.sh`)\n")
 out.append("`repo tests` = whether the repository's own 218 tests still pass with the change (changes that the tests already kill are kept as detection demonstrations only).\n")
